@@ -713,6 +713,98 @@ fn case_buf(p: &[&str]) -> String {
     seg
 }
 
+/// `Q entry addr op:hex;op:hex;.. script`: single-call operations (w, r, f) run one after the other on ONE BufferOperation
+/// object; one segment per operation, joined with " | ".  Nothing may be carried over from one call to the next.
+fn case_bufseq(p: &[&str]) -> String {
+    let entry = p[1];
+    let addr: u32 = p[2].parse().unwrap();
+    let ops: Vec<(String, Vec<u8>)> = p[3]
+        .split(';')
+        .map(|x| {
+            let mut it = x.splitn(2, ':');
+            let o = it.next().unwrap().to_string();
+            (o, hex_to_bytes(it.next().unwrap_or("-")))
+        })
+        .collect();
+    let script = parse_script(p[4]);
+    let log = RefCell::new(Vec::new());
+    let pos = Cell::new(0usize);
+    let polls = Cell::new(0u32);
+    let mut segs: Vec<String> = Vec::new();
+    match entry {
+        "s" => {
+            let mut m = SyncMock(Core { script: &script, pos: &pos, log: &log });
+            let mut o = BufferOperation::<_, u32, RW>::new(&mut m, addr);
+            for (op, data) in &ops {
+                let mut buf = data.clone();
+                let (seg, _) = segment(&log, &polls, || match op.as_str() {
+                    "w" => fmt_count_res(o.write(data), &[]),
+                    "f" => fmt_unit_res(o.flush()),
+                    "r" => {
+                        let r = o.read(&mut buf);
+                        fmt_count_res(r, &buf)
+                    }
+                    _ => panic!("bad op"),
+                });
+                segs.push(seg);
+            }
+        }
+        "t" => {
+            let mut m = SyncMock(Core { script: &script, pos: &pos, log: &log });
+            let mut o = BufferOperation::<_, u32, RW>::new(&mut m, addr);
+            for (op, data) in &ops {
+                let mut buf = data.clone();
+                let (seg, _) = segment(&log, &polls, || match op.as_str() {
+                    "w" => fmt_count_res(embedded_io::Write::write(&mut o, data), &[]),
+                    "f" => fmt_unit_res(embedded_io::Write::flush(&mut o)),
+                    "r" => {
+                        let r = embedded_io::Read::read(&mut o, &mut buf);
+                        fmt_count_res(r, &buf)
+                    }
+                    _ => panic!("bad op"),
+                });
+                segs.push(seg);
+            }
+        }
+        "a" => {
+            let mut m = AsyncMock(Core { script: &script, pos: &pos, log: &log });
+            let mut o = BufferOperation::<_, u32, RW>::new(&mut m, addr);
+            for (op, data) in &ops {
+                let mut buf = data.clone();
+                let (seg, _) = segment(&log, &polls, || match op.as_str() {
+                    "w" => fmt_count_res(block_on(o.write_async(data), &polls), &[]),
+                    "f" => fmt_unit_res(block_on(o.flush_async(), &polls)),
+                    "r" => {
+                        let r = block_on(o.read_async(&mut buf), &polls);
+                        fmt_count_res(r, &buf)
+                    }
+                    _ => panic!("bad op"),
+                });
+                segs.push(seg);
+            }
+        }
+        "u" => {
+            let mut m = AsyncMock(Core { script: &script, pos: &pos, log: &log });
+            let mut o = BufferOperation::<_, u32, RW>::new(&mut m, addr);
+            for (op, data) in &ops {
+                let mut buf = data.clone();
+                let (seg, _) = segment(&log, &polls, || match op.as_str() {
+                    "w" => fmt_count_res(block_on(embedded_io_async::Write::write(&mut o, data), &polls), &[]),
+                    "f" => fmt_unit_res(block_on(embedded_io_async::Write::flush(&mut o), &polls)),
+                    "r" => {
+                        let r = block_on(embedded_io_async::Read::read(&mut o, &mut buf), &polls);
+                        fmt_count_res(r, &buf)
+                    }
+                    _ => panic!("bad op"),
+                });
+                segs.push(seg);
+            }
+        }
+        _ => panic!("bad entry"),
+    }
+    segs.join(" | ")
+}
+
 fn main() {
     std::panic::set_hook(Box::new(|info| {
         let s = info.to_string();
@@ -732,6 +824,7 @@ fn main() {
             "R" => case_reg(&p),
             "C" => case_cmd(&p),
             "B" => case_buf(&p),
+            "Q" => case_bufseq(&p),
             _ => panic!("bad case kind"),
         }));
         match r {
